@@ -41,7 +41,10 @@ type prop struct{ ch *childProc }
 
 func (p *prop) Rule() string {
 	return "histories of 6-16 operations over few values in 2-3 containers/shards: create, derive (clone, freeze, union, intersect, " +
-		"difference, xor, offset range, decode from a mapping, fragment row, row set-operations, merge), then mutate / snapshot / remap / " +
+		"difference, xor, offset range, decode from a mapping, fragment row, row set-operations, merge), values spread over the " +
+		"NON-adjacent containers 0,1,3,7 so that later writes insert container keys in the middle of a key table, fragment " +
+		"importRoaring (set/clear) with array/run/bitmap payload containers (up to 15000 bits) against array/run/bitmap stored " +
+		"containers after rows have been handed out; then mutate / snapshot / remap / " +
 		"unmap / close / reopen either side, every handle re-read after every step; a case is non-trivial when it derives a value and " +
 		"later mutates, remaps or closes one of the two sides"
 }
@@ -54,7 +57,8 @@ func genBitmapCase(r *vh.Rng) vh.Case {
 	mapped := []int{} // handles created by bmap (own a mapping)
 	derived, later := false, false
 	val := func() int {
-		return r.Pick(0, 1, 2, 3, 5, 6, 65535, 65536, 65537, 65540, 70000, 131072, 131073)
+		// containers 0,1,3,7 are populated early; 2, 4 and 5 are the missing middle ones a later add inserts
+		return r.Pick(0, 1, 2, 3, 5, 6, 65535, 65536, 65537, 65540, 70000, 131072, 131073, 196608, 196613, 262144, 327685, 458752, 458759)
 	}
 	csv := func() string {
 		k := r.Pick(0, 1, 2, 3, 4, 7)
@@ -67,7 +71,12 @@ func genBitmapCase(r *vh.Rng) vh.Case {
 		}
 		return strings.Join(s, ",")
 	}
-	lines = append(lines, "bnew "+csv())
+	if r.Chance(1, 2) {
+		// a bitmap spread over the non-adjacent containers 0, 1, 3 (and 7): three or four keys
+		lines = append(lines, "bnew "+r.PickS("0,65536,196608", "1,65537,196613,458752", "5,70000,196608,458759", "0,65536,196608,458752"))
+	} else {
+		lines = append(lines, "bnew "+csv())
+	}
 	n++
 	if r.Chance(2, 3) {
 		lines = append(lines, "bnew "+csv())
@@ -97,7 +106,7 @@ func genBitmapCase(r *vh.Rng) vh.Case {
 			derived = true
 		case x < 83:
 			start := r.Pick(0, 0, 1)
-			lines = append(lines, fmt.Sprintf("boffset %d %d %d %d", h, r.Pick(0, 1, 5, 16), start, start+r.Pick(1, 2, 3)))
+			lines = append(lines, fmt.Sprintf("boffset %d %d %d %d", h, r.Pick(0, 1, 5, 16), start, start+r.Pick(1, 2, 3, 4, 8)))
 			n++
 			derived = true
 		case x < 90:
@@ -129,7 +138,7 @@ func genRowCase(r *vh.Rng) vh.Case {
 	shard := r.Pick(0, 0, 1)
 	derived, later := false, false
 	col := func() int {
-		return r.Pick(0, 1, 2, 3, 5, 65536, 65537, 70000, sw, sw+1, sw+2, sw+65536, 2*sw+1)
+		return r.Pick(0, 1, 2, 3, 5, 65536, 65537, 70000, 131077, 196608, 196609, 262144, 458752, sw, sw+1, sw+2, sw+65536, sw+196608, 2*sw+1)
 	}
 	csv := func() string {
 		k := r.Pick(0, 1, 2, 3, 5)
@@ -143,7 +152,7 @@ func genRowCase(r *vh.Rng) vh.Case {
 		return strings.Join(s, ",")
 	}
 	frow := func() int { return r.Pick(0, 1, 1, 2, 5) }
-	fcol := func() int { return r.Pick(0, 1, 2, 3, 65536, 70000) }
+	fcol := func() int { return r.Pick(0, 1, 2, 3, 65536, 70000, 131072, 196608, 196610, 458752) }
 	lines = append(lines, "rnew "+csv())
 	rows++
 	if r.Chance(3, 4) {
@@ -213,14 +222,121 @@ func genRowCase(r *vh.Rng) vh.Case {
 	return vh.Case{Lines: lines, Nontrivial: derived && later}
 }
 
+// genImportCase: rows are handed out, then importRoaring (set and clear) hits their containers with
+// array / run / bitmap payload containers against array / run / bitmap stored containers (the stored
+// encodings come from earlier imports and from snapshots), then everything is re-read.
+func genImportCase(r *vh.Rng) vh.Case {
+	shard := r.Pick(0, 0, 1)
+	lines := []string{fmt.Sprintf("fopen %d", shard)}
+	rows := 0
+	payload := func(row int) string {
+		b := row * sw
+		switch r.Intn(7) {
+		case 0: // bitmap container: 5000 bits, no runs
+			return fmt.Sprintf("%d-%d/2", b, b+9998)
+		case 1: // long run
+			return fmt.Sprintf("%d-%d", b+r.Pick(0, 4000, 5000), b+r.Pick(5999, 6999, 9000))
+		case 2: // run crossing a container edge
+			return fmt.Sprintf("%d-%d", b+65000, b+66000)
+		case 3: // bitmap container in the second container
+			return fmt.Sprintf("%d-%d/3", b+65536, b+65536+14997)
+		case 4: // few values: array
+			return fmt.Sprintf("%d,%d,%d", b+r.Pick(1, 3, 5001), b+70000, b+196608)
+		case 5: // several short runs
+			return fmt.Sprintf("%d-%d,%d-%d,%d-%d", b+10, b+20, b+4990, b+5010, b+9990, b+10010)
+		default: // dense array-sized
+			return fmt.Sprintf("%d-%d/5", b+2, b+9997)
+		}
+	}
+	row := func() int { return r.Pick(0, 1, 1) }
+	// stored data first
+	for i := r.Range(1, 3); i > 0; i-- {
+		lines = append(lines, fmt.Sprintf("fimport 0 %s", payload(row())))
+	}
+	if r.Chance(1, 2) {
+		lines = append(lines, "fsnap")
+	}
+	derived, later := false, false
+	for i := r.Range(4, 9); i > 0; i-- {
+		switch x := r.Intn(100); {
+		case x < 30:
+			lines = append(lines, fmt.Sprintf("frow %d", row()))
+			rows++
+			derived = true
+		case x < 65:
+			lines = append(lines, fmt.Sprintf("fimport %d %s", r.Pick(0, 0, 1), payload(row())))
+			later = later || derived
+		case x < 75 && rows > 0:
+			lines = append(lines, fmt.Sprintf("rset %d %d", r.Intn(rows), shard*sw+r.Pick(1, 5001, 65999, 131072, 196610)))
+			later = later || derived
+		case x < 85 && rows > 1:
+			lines = append(lines, fmt.Sprintf("r%s %d %d", binNames[r.Intn(4)], r.Intn(rows), r.Intn(rows)))
+			rows++
+		case x < 92:
+			lines = append(lines, "fsnap")
+			later = later || derived
+		default:
+			lines = append(lines, fmt.Sprintf("fset %d %d", row(), r.Pick(1, 5001, 70000)))
+			later = later || derived
+		}
+	}
+	if rows > 0 {
+		lines = append(lines, fmt.Sprintf("frow %d", row()))
+	}
+	return vh.Case{Lines: lines, Nontrivial: derived && later}
+}
+
+// genSpreadRowCase: a fragment row spanning the non-adjacent containers 0, 1, 3 is read, the reader
+// writes into the missing container 2 (an insertion in the middle of the key table), the row is read
+// again; the same for three-way unions of rows of one shard.
+func genSpreadRowCase(r *vh.Rng) vh.Case {
+	shard := r.Pick(0, 0, 1)
+	lines := []string{fmt.Sprintf("fopen %d", shard)}
+	rw := r.Pick(0, 1, 2)
+	for _, c := range []int{0, 65536, 196608} {
+		lines = append(lines, fmt.Sprintf("fset %d %d", rw, c+r.Pick(0, 1, 7)))
+	}
+	if r.Chance(1, 2) {
+		lines = append(lines, fmt.Sprintf("fset %d %d", rw, 458752))
+	}
+	if r.Chance(1, 3) {
+		lines = append(lines, "fsnap")
+	}
+	rows := 0
+	for i := r.Range(3, 8); i > 0; i-- {
+		switch x := r.Intn(100); {
+		case x < 35:
+			lines = append(lines, fmt.Sprintf("frow %d", rw))
+			rows++
+		case x < 70 && rows > 0:
+			lines = append(lines, fmt.Sprintf("rset %d %d", r.Intn(rows), shard*sw+r.Pick(131072, 131077, 262144, 327680, 3)))
+		case x < 85 && rows > 1:
+			lines = append(lines, fmt.Sprintf("r%s %d %d", binNames[r.Intn(4)], r.Intn(rows), r.Intn(rows)))
+			rows++
+		case x < 92:
+			lines = append(lines, fmt.Sprintf("rnew %d,%d,%d", shard*sw+2, shard*sw+65540, shard*sw+196700))
+			rows++
+		default:
+			lines = append(lines, fmt.Sprintf("fset %d %d", rw, r.Pick(131072, 5, 262150)))
+		}
+	}
+	lines = append(lines, fmt.Sprintf("frow %d", rw))
+	return vh.Case{Lines: lines, Nontrivial: rows > 0}
+}
+
 func (p *prop) Gen(r *vh.Rng, tier string, n int) []vh.Case {
 	var cases []vh.Case
 	for k := 0; k < n; k++ {
 		cr := r.Fork()
-		if cr.Chance(2, 5) {
+		switch x := cr.Intn(100); {
+		case x < 30:
 			cases = append(cases, genBitmapCase(cr))
-		} else {
+		case x < 65:
 			cases = append(cases, genRowCase(cr))
+		case x < 82:
+			cases = append(cases, genSpreadRowCase(cr))
+		default:
+			cases = append(cases, genImportCase(cr))
 		}
 	}
 	return cases
@@ -429,7 +545,62 @@ func (c *child) killRegionsOf(b *roaring.Bitmap, keep *region) {
 	}
 }
 
-func csvVals(s string) []uint64 { return vh.ParseCSV(s) }
+// csvVals parses items `a`, `a-b`, `a-b/step` separated by commas (`-` = nothing).
+func csvVals(s string) []uint64 {
+	if s == "-" || s == "" {
+		return nil
+	}
+	var out []uint64
+	for _, it := range strings.Split(s, ",") {
+		step := uint64(1)
+		if i := strings.IndexByte(it, '/'); i >= 0 {
+			v, err := strconv.ParseUint(it[i+1:], 10, 64)
+			if err != nil || v == 0 {
+				panic("bad number " + it)
+			}
+			step, it = v, it[:i]
+		}
+		lo, hi := it, it
+		if i := strings.IndexByte(it, '-'); i > 0 {
+			lo, hi = it[:i], it[i+1:]
+		}
+		a, err1 := strconv.ParseUint(lo, 10, 64)
+		b, err2 := strconv.ParseUint(hi, 10, 64)
+		if err1 != nil || err2 != nil {
+			panic("bad number " + it)
+		}
+		for v := a; v <= b; v += step {
+			out = append(out, v)
+		}
+	}
+	return out
+}
+
+// showVals prints a list like the model driver: arithmetic runs of length >= 4 as a-b or a-b/step.
+func showVals(xs []uint64) string {
+	var parts []string
+	for i := 0; i < len(xs); {
+		if i+1 < len(xs) && xs[i+1] > xs[i] {
+			step := xs[i+1] - xs[i]
+			j := i + 1
+			for j+1 < len(xs) && xs[j+1] == xs[j]+step {
+				j++
+			}
+			if j-i+1 >= 4 {
+				p := fmt.Sprintf("%d-%d", xs[i], xs[j])
+				if step != 1 {
+					p += fmt.Sprintf("/%d", step)
+				}
+				parts = append(parts, p)
+				i = j + 1
+				continue
+			}
+		}
+		parts = append(parts, strconv.FormatUint(xs[i], 10))
+		i++
+	}
+	return "[" + strings.Join(parts, " ") + "]"
+}
 
 func atoi(s string) int {
 	v, err := strconv.Atoi(s)
@@ -598,7 +769,7 @@ func (c *child) exec(ws []string) string {
 		}
 		c.frag, c.fopen = f, true
 		c.shard = uint64(atoi(ws[1]))
-	case "fset", "fclear", "frow", "fsetrow", "fclearrow", "fsnap", "fclose":
+	case "fset", "fclear", "frow", "fsetrow", "fclearrow", "fsnap", "fclose", "fimport":
 		if c.frag == nil || !c.fopen {
 			return badRef
 		}
@@ -618,6 +789,10 @@ func (c *child) exec(ws []string) string {
 			_, err = c.frag.SetRow(y, uint64(atoi(ws[1])))
 		case "fclearrow":
 			_, err = c.frag.ClearRow(uint64(atoi(ws[1])))
+		case "fimport":
+			// the payload is a serialised roaring bitmap; WriteTo optimises it, so ranges arrive as
+			// run containers, dense non-ranges as bitmap containers, the rest as arrays
+			err = c.frag.ImportRoaring(serialise(roaring.NewBitmap(csvVals(ws[2])...)), ws[1] == "1")
 		case "fsnap":
 			err = c.frag.Snapshot()
 		case "fclose":
@@ -655,10 +830,10 @@ type ref struct {
 func (c *child) dump() string {
 	var parts []string
 	for i, b := range c.bs {
-		parts = append(parts, fmt.Sprintf("B%d=%s", i, vh.U64s(b.Slice())))
+		parts = append(parts, fmt.Sprintf("B%d=%s", i, showVals(b.Slice())))
 	}
 	for i, r := range c.rows {
-		parts = append(parts, fmt.Sprintf("R%d=%s", i, vh.U64s(r.Columns())))
+		parts = append(parts, fmt.Sprintf("R%d=%s", i, showVals(r.Columns())))
 	}
 	switch {
 	case c.frag == nil:
@@ -666,7 +841,7 @@ func (c *child) dump() string {
 	case !c.fopen:
 		parts = append(parts, "F=closed")
 	default:
-		parts = append(parts, "F="+vh.U64s(c.frag.Positions()))
+		parts = append(parts, "F="+showVals(c.frag.Positions()))
 	}
 	if c.iso() {
 		parts = append(parts, "iso=ok")
@@ -707,6 +882,30 @@ func (c *child) iso() bool {
 	}
 	ok := true
 	dbg := os.Getenv("C03_DEBUG") != ""
+	// a bitmap owns its key table: no two slice bitmaps share the backing array of their key slice
+	// or of their container slice
+	tabK, tabC := map[uintptr]*roaring.Bitmap{}, map[uintptr]*roaring.Bitmap{}
+	for b := range seenBm {
+		k, cs := roaring.VerifC03Table(b)
+		if k != 0 {
+			if o, dup := tabK[k]; dup && o != b {
+				ok = false
+				if dbg {
+					fmt.Fprintf(os.Stderr, "iso: key slice shared by %p and %p\n", o, b)
+				}
+			}
+			tabK[k] = b
+		}
+		if cs != 0 {
+			if o, dup := tabC[cs]; dup && o != b {
+				ok = false
+				if dbg {
+					fmt.Fprintf(os.Stderr, "iso: container slice shared by %p and %p\n", o, b)
+				}
+			}
+			tabC[cs] = b
+		}
+	}
 	bad := func(why string, r ref) {
 		ok = false
 		if dbg {
